@@ -446,7 +446,7 @@ def discRead (src dst : List Nat × Nat) (ctr : Nat) : Disp.Dg :=
 theorem c05_still_serves (w : Disp.W) (p : Nat) (src dst : List Nat × Nat) (ctr : Nat) (rf : Disp.RF) (lf : Disp.LF)
     (hs : Disp.srcF w p (discRead src dst ctr) = some rf) (hd : Disp.dstF w (discRead src dst ctr) = some lf)
     (hnm : lf.nm = true) :
-    (Disp.processCmd w p (discRead src dst ctr)).2 = [(p, .reply (some ctr) 901 dst src 0 (some 0))] := by
+    (Disp.processCmd w p (discRead src dst ctr)).2 = [(p, .reply (some ctr) 901 dst src (w.nmData 901) (some 0))] := by
   unfold Disp.processCmd
   simp only [hs, hd]
   simp [discRead, Disp.crashes, Disp.inPanics, Disp.responses, Disp.handle, Disp.handleNM, Disp.wantsRead,
@@ -564,7 +564,7 @@ theorem c05_still_serves_after_discovery (m : Disc.Msg) (t : Disc.Tree) (h : Dis
     (hA : Disc.AgreeD (Disc.replyKeep m t).1 (w.peers p).feats ∨
           Disc.AgreeD (Disc.notifyPartialKeep m t).1 (w.peers p).feats ∨
           Disc.AgreeD (Disc.notifyFullKeep m t).1 (w.peers p).feats) :
-    (Disp.processCmd w p (discRead Disp.nmAddr dst ctr)).2 = [(p, .reply (some ctr) 901 dst Disp.nmAddr 0 (some 0))] := by
+    (Disp.processCmd w p (discRead Disp.nmAddr dst ctr)).2 = [(p, .reply (some ctr) 901 dst Disp.nmAddr (w.nmData 901) (some 0))] := by
   obtain ⟨h1, h2, h3⟩ := c05_nm_present m t h
   have hs : (Disp.srcF w p (discRead Disp.nmAddr dst ctr)).isSome = true := by
     rcases hA with hA | hA | hA
@@ -588,7 +588,7 @@ theorem c05_still_serves_every_peer (w0 : Disp.W) (ops : List Disp.Op) (q : Nat)
     (hdrop : ∀ p, Disp.Op.drop p ∈ ops → p ≠ q)
     (hd : Disp.dstF w0 (discRead Disp.nmAddr dst ctr) = some lf) (hnm : lf.nm = true) :
     (Disp.processCmd (Disp.run w0 ops) q (discRead Disp.nmAddr dst ctr)).2 =
-      [(q, .reply (some ctr) 901 dst Disp.nmAddr 0 (some 0))] := by
+      [(q, .reply (some ctr) 901 dst Disp.nmAddr ((Disp.run w0 ops).nmData 901) (some 0))] := by
   have hcon := Disp.connected_run ops w0 q hc hF hdrop
   rw [← Disp.srcF_nm_isSome (Disp.run w0 ops) q (discRead Disp.nmAddr dst ctr) rfl] at hcon
   have hd' : Disp.dstF (Disp.run w0 ops) (discRead Disp.nmAddr dst ctr) = some lf := by
